@@ -415,7 +415,34 @@ pub fn cmd_session(args: &[String]) {
     }
     println!("{{\"sessions\":{},\"calls\":{}}}", sessions, calls);
 }
-pub fn cmd_race(_args: &[String]) { unimplemented!() }
+// ---------------------------------------------------------------- race
+/// One cold start: N threads make their first parse call together.  Prints one
+/// "proc" event on stdout (the caller starts a fresh process per event).
+pub fn cmd_race(args: &[String]) {
+    use std::sync::{Arc, Barrier};
+    let n: usize = arg(args, "--threads").and_then(|s| s.parse().ok()).unwrap_or(16);
+    let barrier = Arc::new(Barrier::new(n));
+    let msg: &'static [u8] = b"GET /a/rather/long/target/so/that/the/vector/loop/runs/0123456789 HTTP/1.1\r\nHost: example.org\r\nAccept: text/html,application/xhtml+xml;q=0.9\r\n\r\n";
+    let mut hs = Vec::new();
+    for _ in 0..n {
+        let b = barrier.clone();
+        hs.push(std::thread::spawn(move || {
+            httparse::verif::race_enable(true);
+            b.wait();
+            let mut h = [httparse::EMPTY_HEADER; 8];
+            let mut req = httparse::Request::new(&mut h);
+            let r = req.parse(msg);
+            let sig = format!("{:?}|{:?}|{:?}|{:?}|{}", r, req.method, req.path, req.version, req.headers.iter().map(|x| format!("{}={:?}", x.name, x.value)).collect::<Vec<_>>().join(","));
+            httparse::verif::race_enable(false);
+            (httparse::verif::take_race().to_vec(), sig)
+        }));
+    }
+    let res: Vec<(Vec<(u8, u8)>, String)> = hs.into_iter().map(|h| h.join().unwrap()).collect();
+    let same = res.iter().all(|r| r.1 == res[0].1) && res[0].1.starts_with("Ok(Complete(");
+    let cpu = if std::is_x86_feature_detected!("avx2") { 1 } else if std::is_x86_feature_detected!("sse4.2") { 2 } else { 3 };
+    let th: Vec<String> = res.iter().map(|r| format!("[{}]", r.0.iter().map(|o| format!("[{},{}]", o.0, o.1)).collect::<Vec<_>>().join(","))).collect();
+    println!("{{\"ev\":\"proc\",\"cpu\":{},\"threads\":[{}],\"same\":{}}}", cpu, th.join(","), same as u8);
+}
 // ---------------------------------------------------------------- scan
 /// aggregated scanner results of every compiled-in backend (hook H2)
 pub fn cmd_scan(args: &[String]) {
